@@ -82,6 +82,8 @@ def body(run):
                     k += ":" + e["scale"]
                     if e["scale"] == "quarter" and not e["panic"]:
                         k += ":" + quarter_factor(e)
+                if e["ev"] == "IntervalZone":
+                    k += ":" + e["scale"]
                 if e["ev"] in ("ToDate32", "ColDate32", "ToDate", "ColDate"):
                     k += ":before-1970" if (e["c"]["y"] < 1970) else ":from-1970"
                 if e["ev"] in ("ToDateTime64", "FromDateTime64", "ColInstant"):
@@ -102,7 +104,7 @@ def body(run):
         total["lines"] += v.lines
         total["accepted"] += v.accepted_lines
         samples += [json.loads(x) for x in lines[:2]]
-    need = ["ToDate", "ToDate32", "ToDateTime", "ToDateTime64", "FromDateTime64", "ColInstant", "Interval", "Widen", "IPv4", "IPv6", "ColDate", "ColDate32"]
+    need = ["ToDate", "ToDate32", "ToDateTime", "ToDateTime64", "FromDateTime64", "ColInstant", "Interval", "IntervalZone", "Widen", "IPv4", "IPv6", "ColDate", "ColDate32"]
     if any(kinds.get(k, 0) < 100 for k in need) or kinds.get("panic"):
         if kinds.get("panic"):
             pass  # a panic line is rejected by the trace specification (OTHER -> FALSE)
